@@ -1724,6 +1724,10 @@ class SequenceOfAndSetOfBase(base.ConstructedAsn1Type):
             yield self.getComponentByPosition(idx)
 
     def _cloneComponentValues(self, myClone, cloneValueFlag):
+        if self._componentValues is noValue:
+            # schema object (e.g. an unset member of a record): nothing to copy
+            return
+
         for idx, componentValue in self._componentValues.items():
             if componentValue is not noValue:
                 if isinstance(componentValue, base.ConstructedAsn1Type):
